@@ -549,12 +549,37 @@ func ruleRootLink(id string) func(*Checker) {
 				}
 				return v
 			}
-			root := cl.Call.Args[0]
+			var judge func(fn *ssa.Function, root ssa.Value, at *ssa.BasicBlock, depth int) (bool, string)
+			judge = func(fn *ssa.Function, root ssa.Value, at *ssa.BasicBlock, depth int) (bool, string) {
 			base := strip(root)
-			// an Lstat of a cleaned spelling of the same value whose not-a-symlink edge guards the walk
+			// the path was prepared by a private helper: judged at the helper's successful returns
+			if ex, ok := base.(*ssa.Extract); ok && depth < 2 {
+				if hc, ok := ex.Tuple.(*ssa.Call); ok {
+					if h := hc.Common().StaticCallee(); h != nil && p.InModule(h) && len(h.Blocks) > 0 && p.family(pack)[h] {
+						okAll, whyH, n := true, "", 0
+						for _, r := range returnsOf(h) {
+							if !mayReturnNilErr(r) {
+								continue
+							}
+							for _, rv := range returnValues(r, ex.Index) {
+								if rv == nil {
+									continue
+								}
+								n++
+								if ok2, w := judge(h, rv, r.Block(), depth+1); !ok2 {
+									okAll, whyH = false, w
+								}
+							}
+						}
+						if n > 0 {
+							return okAll, whyH
+						}
+					}
+				}
+			}
 			okLink := false
 			why := "no os.Lstat of the walked path with a test for os.ModeSymlink guards the walk"
-			for _, li := range callsTo(pack, func(o *types.Func) bool { return isFunc(o, "os", "Lstat") }) {
+			for _, li := range callsTo(fn, func(o *types.Func) bool { return isFunc(o, "os", "Lstat") }) {
 				ls := li.(*ssa.Call)
 				arg := ls.Call.Args[0]
 				if strip(arg) != base && canon(arg) != canon(root) && canon(arg) != base {
@@ -575,7 +600,7 @@ func ruleRootLink(id string) func(*Checker) {
 					continue
 				}
 				// mode&ModeSymlink test
-				tE, fE := condEdges(pack, func(v ssa.Value) bool {
+				tE, fE := condEdges(fn, func(v ssa.Value) bool {
 					bo, ok := v.(*ssa.BinOp)
 					if !ok || (bo.Op != token.NEQ && bo.Op != token.EQL) {
 						return false
@@ -612,7 +637,7 @@ func ruleRootLink(id string) func(*Checker) {
 				if len(notLink) == 0 {
 					continue
 				}
-				if !guarded(cl.Block(), notLink) {
+				if !guarded(at, notLink) {
 					why = "the walk can be reached without passing the not-a-symlink edge of the Lstat of its root (e.g. after following the link once, without looking at what it points to)"
 					continue
 				}
@@ -622,6 +647,9 @@ func ruleRootLink(id string) func(*Checker) {
 				}
 				okLink = true
 			}
+			return okLink, why
+			}
+			okLink, why := judge(pack, cl.Call.Args[0], cl.Block(), 0)
 			c.check(okLink, id, p.FuncName(pack), "walk root is not a symlink", p.Pos(cl.Pos()), "the walked path was Lstat-ed in cleaned form and is past the not-a-symlink edge", why+": filepath.Walk visits a symlink root without descending, so Pack returns an empty slug and a nil error")
 		}
 		c.check(n > 0, id, p.FuncName(pack), "walk call", p.Pos(pack.Pos()), fmt.Sprintf("%d", n), "Pack no longer walks the source directory with filepath.Walk")
